@@ -230,6 +230,19 @@ fn main() {
             Ok(o) => println!("Ok: iterations {} unsatisfied {:?} priority {} warnings {}", o.iterations(), o.unsatisfied(), o.priority_solved(), o.warnings().len()),
             Err(f) => println!("Err: {:?} (vars {}, eqs {}, warnings {})", f.error, f.num_vars, f.num_eqs, f.warnings.len()),
         }
+        // non-finite entries of the Jacobian at the returned configuration (what the freedom analysis reads)
+        if let Ok(o) = &solve(&reqs, guesses.clone(), Config::default()) {
+            for (idx, r) in reqs.iter().enumerate() {
+                let (rows, deg) = kcl_ezpz::verif_hooks::jacobian_rows(r.constraint(), o.final_values());
+                if rows.iter().flatten().any(|e| !e.1.is_finite()) {
+                    println!("  request {idx} ({}) has non-finite partial derivatives at the returned values (degenerate flag {deg})", r.constraint().constraint_kind());
+                }
+            }
+            match solve_analysis(&reqs, guesses.clone(), Config::default()) {
+                Ok(a) => println!("  solve_analysis: Ok, under-constrained {:?}", a.analysis.underconstrained()),
+                Err(f) => println!("  solve_analysis: Err {:?}", f.error),
+            }
+        }
         // the variable-disjoint parts of the system, each solved on its own
         let n = guesses.len();
         let mut parent: Vec<usize> = (0..n).collect();
